@@ -153,6 +153,12 @@ func Print(e *E) string {
 	case "rdesc":
 		return ".."
 	case "pipe":
+		// a pipe marked J is written as a postfix chain (.a[0], .a.b, .a[], .a[1:3]) when its operands allow it
+		if e.J != nil && postfixBase(e.A[0]) {
+			if sfx, ok := postfixStep(e.A[1]); ok {
+				return Print(e.A[0]) + sfx
+			}
+		}
 		// in yq `,` binds looser than `|`: a union (and a binding, whose scope runs
 		// to the right) must be bracketed when it is an operand of a pipe
 		return wrapP(e.A[0]) + " | " + wrapP(e.A[1])
@@ -197,6 +203,49 @@ func Print(e *E) string {
 		return wrapAs(e.A[0]) + " as $" + e.S + " ireduce (" + Print(e.A[1]) + "; " + Print(e.A[2]) + ")"
 	}
 	return "?" + e.Op
+}
+
+// postfixStep: the spelling of a traversal step written directly after a path.
+func postfixStep(e *E) (string, bool) {
+	switch e.Op {
+	case "key", "idx", "splat", "slice":
+		p := Print(e)
+		if strings.HasPrefix(p, ".[") {
+			return p[1:], true // [0], ["k"], [], [1:3]
+		}
+		return p, true // .k
+	}
+	return "", false
+}
+
+// postfixBase: expressions a traversal step can be appended to.
+func postfixBase(e *E) bool {
+	switch e.Op {
+	case "key", "idx", "splat", "slice":
+		return true
+	case "pipe":
+		if e.J == nil || !postfixBase(e.A[0]) {
+			return false
+		}
+		_, ok := postfixStep(e.A[1])
+		return ok
+	}
+	return false
+}
+
+// MarkPostfix marks the pipes of e that can be written as postfix chains, as choose decides.
+func MarkPostfix(e *E, choose func() bool) {
+	if e == nil {
+		return
+	}
+	for _, a := range e.A {
+		MarkPostfix(a, choose)
+	}
+	if e.Op == "pipe" && len(e.A) == 2 && postfixBase(e.A[0]) {
+		if _, ok := postfixStep(e.A[1]); ok && choose() {
+			e.J = new(int)
+		}
+	}
 }
 
 func wrapP(e *E) string {
